@@ -279,9 +279,16 @@ where
 {
     let next = AtomicU64::new(0);
     let workers = ctx.workers.max(1).min(n.max(1) as usize);
+    // VERIF_CASE_TRACE=<path prefix>: every worker records the id of the case it is about to run, so that
+    // ./check can tell which case was executing when the process died of a signal (stack overflow,
+    // abort) - something catch_unwind cannot intercept.
+    let trace = std::env::var("VERIF_CASE_TRACE").ok().filter(|s| !s.is_empty());
+    let trace = &trace;
+    let next = &next;
+    let f = &f;
     std::thread::scope(|s| {
-        for _ in 0..workers {
-            s.spawn(|| {
+        for widx in 0..workers {
+            s.spawn(move || {
                 let mut local = Local::with_known(ctx.known.clone());
                 loop {
                     let idx = next.fetch_add(1, Ordering::Relaxed);
@@ -299,6 +306,9 @@ where
                         idx,
                         id: id.clone(),
                     };
+                    if let Some(t) = trace {
+                        let _ = std::fs::write(format!("{t}.{family}.{widx}"), &id);
+                    }
                     let mut rng = Rng::derive(ctx.seed, family, idx);
                     local.case_id = id.clone();
                     let prefix = format!("{}:", ctx.prop);
@@ -307,6 +317,9 @@ where
                         // flush early so that memory stays bounded
                         mon.absorb(std::mem::replace(&mut local, Local::with_known(ctx.known.clone())));
                     }
+                }
+                if let Some(t) = trace {
+                    let _ = std::fs::remove_file(format!("{t}.{family}.{widx}"));
                 }
                 mon.absorb(local);
             });
@@ -474,7 +487,10 @@ pub fn finish(ctx: &Ctx, mon: &Mon, spec: Spec) -> i32 {
     let mut seen_sig: HashSet<String> = HashSet::new();
     let mut violation_lines = 0;
     let replay_dir = ctx.root.join("replays");
-    if ctx.replay_case.is_none() && ctx.mode.is_none() {
+    // VERIF_SUBRUN=<name>: this process is a sanitizer / second-profile sub-run of sanitize.sh — it
+    // must not overwrite the main run's evidence or delete its replay files.
+    let subrun = std::env::var("VERIF_SUBRUN").ok().filter(|s| !s.is_empty());
+    if ctx.replay_case.is_none() && ctx.mode.is_none() && subrun.is_none() {
         // replay files of earlier runs of this property are stale now
         if let Ok(rd) = std::fs::read_dir(&replay_dir) {
             for e in rd.flatten() {
@@ -492,7 +508,10 @@ pub fn finish(ctx: &Ctx, mon: &Mon, spec: Spec) -> i32 {
             continue;
         }
         let _ = std::fs::create_dir_all(&replay_dir);
-        let name = format!("{}-{:016x}.json", ctx.prop, fnv(v.signature.as_bytes()) ^ fnv(v.case_id.as_bytes()));
+        let name = match &subrun {
+            Some(sr) => format!("{}-{}-{:016x}.json", ctx.prop, sr, fnv(v.signature.as_bytes()) ^ fnv(v.case_id.as_bytes())),
+            None => format!("{}-{:016x}.json", ctx.prop, fnv(v.signature.as_bytes()) ^ fnv(v.case_id.as_bytes())),
+        };
         let path = replay_dir.join(&name);
         let body = json!({
             "property": ctx.prop,
@@ -503,6 +522,8 @@ pub fn finish(ctx: &Ctx, mon: &Mon, spec: Spec) -> i32 {
             "summary": v.summary,
             "detail": v.detail,
             "replay": format!("VERIF_SEED={} ./check {} --replay replays/{}", ctx.seed, ctx.prop, name),
+            "subrun": subrun,
+            "mode": ctx.mode,
         });
         let _ = std::fs::write(&path, serde_json::to_string_pretty(&body).unwrap());
         println!("VIOLATION property={} replay=replays/{}", ctx.prop, name);
@@ -570,7 +591,13 @@ pub fn finish(ctx: &Ctx, mon: &Mon, spec: Spec) -> i32 {
         "inconclusive_reasons": inconclusive,
         "distinct_violation_signatures": seen_sig.len(),
     });
-    if ctx.replay_case.is_none() && ctx.mode.is_none() {
+    if let (Some(sr), None) = (&subrun, &ctx.replay_case) {
+        // sub-run summary for sanitize.sh to merge into the main evidence file
+        let dir = ctx.root.join("harness").join("target").join("subruns");
+        let _ = std::fs::create_dir_all(&dir);
+        let _ = std::fs::write(dir.join(format!("{}-{}.json", ctx.prop, sr)), serde_json::to_string_pretty(&ev).unwrap());
+    }
+    if ctx.replay_case.is_none() && ctx.mode.is_none() && subrun.is_none() {
         let dir = ctx.root.join("evidence");
         let _ = std::fs::create_dir_all(&dir);
         let tmp = dir.join(format!("{}.json.tmp", ctx.prop));
